@@ -46,7 +46,7 @@ import (
 var (
 	dataAttribute             = regexp.MustCompile("^data-.+")
 	dataAttributeXMLPrefix    = regexp.MustCompile("^xml")
-	dataAttributeInvalidChars = regexp.MustCompile("[A-Z;]+")
+	dataAttributeInvalidChars = regexp.MustCompile(`[^-._0-9a-z\x{B7}\x{C0}-\x{D6}\x{D8}-\x{F6}\x{F8}-\x{37D}\x{37F}-\x{1FFF}\x{200C}\x{200D}\x{203F}\x{2040}\x{2070}-\x{218F}\x{2C00}-\x{2FEF}\x{3001}-\x{D7FF}\x{F900}-\x{FDCF}\x{FDF0}-\x{FFFD}\x{10000}-\x{EFFFF}]`)
 	cssUnicodeChar            = regexp.MustCompile(`\\[0-9a-f]{1,6}(?:\r\n|[ \t\n\f\r])?`)
 	dataURIbase64Prefix       = regexp.MustCompile(`^data:[^,]*;base64,`)
 )
@@ -1309,7 +1309,9 @@ func isDataAttribute(val string) bool {
 	if dataAttributeXMLPrefix.MatchString(rest[1]) {
 		return false
 	}
-	// no uppercase or semi-colons allowed.
+	// the name has to be XML-compatible: what follows "data-" is made of XML
+	// name characters other than the colon and the upper-case letters (no
+	// semi-colons, quotes, angle brackets ...).
 	if dataAttributeInvalidChars.MatchString(rest[1]) {
 		return false
 	}
